@@ -3,6 +3,8 @@
 // ways a Go error type can differ in what it exposes.
 package ut
 
+import pkgerrors "github.com/pkg/errors"
+
 // Plain is a pointer-typed leaf with nothing but a message.
 type Plain struct{ Msg string }
 
@@ -173,4 +175,20 @@ func (e *NilOK) Error() string {
 		return "nil sentinel"
 	}
 	return e.Msg
+}
+
+// Tracer is a leaf of a third-party kind that carries a stack trace in the pkg/errors
+// format (any error with a StackTrace() method is a stack-bearing layer for the library).
+type Tracer struct {
+	Msg string
+	St  pkgerrors.StackTrace
+}
+
+func (e *Tracer) Error() string                    { return e.Msg }
+func (e *Tracer) StackTrace() pkgerrors.StackTrace { return e.St }
+
+// NewTracer captures the stack of its caller.
+func NewTracer(msg string) *Tracer {
+	st := pkgerrors.New("x").(interface{ StackTrace() pkgerrors.StackTrace }).StackTrace()
+	return &Tracer{Msg: msg, St: st[1:]}
 }
